@@ -37,14 +37,31 @@ C2 = None
 _embedded = {}
 
 
-def run(tier, seed, ck=None):
-    """with ck given, the obligations of the field layer are added to another property's check (once per process):
-    every check that abstracts field.Element methods re-proves their contracts on the current tree"""
+METHOD_KERNELS = {'Add': ['Add'], 'Subtract': ['Sub'], 'Multiply': ['Mul'], 'Negate': ['Opp'], 'Square': ['Square'], 'Set': [], 'Sgn0': ['FromMontgomery'],
+                  'IsZero': ['Nonzero'], 'Equals': ['Nonzero'], 'Bytes': ['FromMontgomery'], 'One': ['SetOne'], 'IsEqual': ['Nonzero'], 'CMove': ['Selectznz'],
+                  'Reduce': [], 'FromBytesWithReduce': ['ToMontgomery'], 'FromBytesNoReduce': ['ToMontgomery'], 'HashToFieldElement': ['ToMontgomery', 'Mul', 'Add'],
+                  'Invert': ['Mul', 'Square'], 'expPMin3Div4': ['Mul', 'Square'], 'SqrtRatio': ['Mul', 'Square', 'Selectznz', 'Nonzero']}
+ALL_METHODS = sorted(METHOD_KERNELS)
+
+
+def run(tier, seed, ck=None, which=None):
+    """with ck given, the contracts of the field.Element methods listed in `which` (those the embedding check replaces by
+    summaries) are re-proved on the current tree inside that check (once per process and method)"""
     own = ck is None
     if not own:
-        if _embedded.get(id(ck)):
+        done = _embedded.setdefault(id(ck), set())
+        which = [m for m in (which or ALL_METHODS) if m not in done]
+        done.update(which)
+        if not which:
             return
-        _embedded[id(ck)] = True
+    wanted = set(which or ALL_METHODS)
+    if 'SqrtRatio' in wanted:
+        wanted |= {'expPMin3Div4'}
+    if 'FromBytesWithReduce' in wanted:
+        wanted |= {'Reduce'}
+
+    def want(name):
+        return name in wanted
     ck = ck or Check('C12', tier, seed, level='proof')
     jobs = []
     for op in range(3):
@@ -67,6 +84,17 @@ def run(tier, seed, ck=None):
     for al in range(2):
         jobs.append({'id': 'inv%d' % al, 'harness': 'vh_fe_invert', 'args': [al], 'summaries': KS})
     jobs.append({'id': 'exp0', 'harness': 'vh_fe_exp', 'args': [0], 'summaries': KS})
+    JOBMETH = {'op2_0': 'Add', 'op2_1': 'Subtract', 'op2_2': 'Multiply', 'op1_0': 'Negate', 'op1_1': 'Square', 'op1_2': 'Set', 'cmove': 'CMove', 'frombytes': 'FromBytesWithReduce',
+               'nored': 'FromBytesNoReduce', 'h2f': 'HashToFieldElement', 'reduce': 'Reduce', 'sqrt': 'SqrtRatio', 'inv': 'Invert', 'exp0': 'expPMin3Div4'}
+
+    def job_wanted(jid):
+        if jid == 'misc':
+            return bool(wanted & {'Sgn0', 'IsZero', 'Equals', 'Bytes', 'One', 'IsEqual'})
+        for k, mth in JOBMETH.items():
+            if jid.startswith(k):
+                return want(mth)
+        return True
+    jobs = [j for j in jobs if job_wanted(j['id'])]
     runs = ck.absorb(core.symx_parallel(HARNESS, jobs, pkg='field'))
     ck.extra.setdefault('_runs', []).extend(runs)
     R_ = {r.id: r for r in runs}
@@ -76,7 +104,7 @@ def run(tier, seed, ck=None):
     ck.bounds.update({'operands': 'all canonical limb vectors / all 32- and 48-byte strings', 'aliasing': 'receiver = either/both operands, operands equal',
                  'FromBytesNoReduce lengths': nrl})
     ck.outside += ['non-canonical limb vectors; CMove conditions other than 0/1; expPMin3Div4 with receiver aliasing its argument (unexported helper, never called that way)']
-    kernels.prove(ck, 'field', ['Mul', 'Square', 'Add', 'Sub', 'Opp', 'FromMontgomery', 'ToMontgomery', 'Selectznz', 'Nonzero', 'SetOne'], tier)
+    kernels.prove(ck, 'field', sorted({k for mth in wanted for k in METHOD_KERNELS[mth]} | ({'FromMontgomery', 'ToMontgomery'} if own else set())), tier)
 
     def one_path(r, tag):
         ok = len(r.paths) == 1 and r.paths[0]['end'] == 'return'
@@ -85,7 +113,7 @@ def run(tier, seed, ck=None):
 
     # ---- binary / unary wrappers ----
     for op, (nm, uf) in enumerate((('Add', 'fadd'), ('Subtract', 'fsub'), ('Multiply', 'fmul'))):
-        for al in range(5):
+        for al in (range(5) if want(nm) else []):
             r = R_['op2_%d_%d' % (op, al)]
             tag = 'C12.%s.alias%d' % (nm, al)
             p = one_path(r, tag)
@@ -104,7 +132,7 @@ def run(tier, seed, ck=None):
             if ans[0] == 'sat' and al == 0:
                 cex(ck, r, low, '', goals[0][2], nm, 'u', 'v')
     for op, (nm, uf) in enumerate((('Negate', 'fneg'), ('Square', 'fsq'), ('Set', None))):
-        for al in range(2):
+        for al in (range(2) if want(nm) else []):
             r = R_['op1_%d_%d' % (op, al)]
             tag = 'C12.%s.alias%d' % (nm, al)
             p = one_path(r, tag)
@@ -123,8 +151,8 @@ def run(tier, seed, ck=None):
                 cex(ck, r, low, '', g1[2], nm, 'u')
 
     # ---- Sgn0, IsZero, Equals, Bytes, One, IsEqual ----
-    r = R_['misc']
-    p = one_path(r, 'C12.misc')
+    r = R_.get('misc')
+    p = one_path(r, 'C12.misc') if r else None
     if p:
         o = p['obs']
         low = BVLower(r)
@@ -144,6 +172,7 @@ def run(tier, seed, ck=None):
         for j in range(min(32, len(o['bytes']['elems']))):
             goals.append(('C12.Bytes.%d' % j, 'Bytes()[%d] = byte %d of the 32-byte big-endian canonical value' % (j, j),
                           '(assert (not (= n%d ((_ extract %d %d) ve))))' % (o['bytes']['elems'][j], 255 - 8 * j, 248 - 8 * j)))
+        goals = [g for g in goals if want(g[0].split('.')[1])]
         ans = ck.prove_batch_par(pre, goals, timeout=60, chunks=3)
         for g, a in zip(goals, ans):
             if a == 'sat' and g[0] != 'C12.IsEqual':
@@ -152,11 +181,13 @@ def run(tier, seed, ck=None):
                 MontUF(lowm, 'f')
                 cex(ck, r, lowm, pre[len(low.all()):], g[2], g[0].split('.')[1], 'e', 'u')
         ck.prove('C12.misc.reach', 'assumptions satisfiable', pre, expect='sat', timeout=30)
-        ck.ground('C12.Bytes.shape', 'Bytes returns 32 fresh bytes and leaves the element unchanged', o['bytes']['len'] == 32 and o['bytes']['fresh'] and o['E']['f'] == o['E0']['f'])
-        ck.ground('C12.One', 'One() = R mod p; New() = 0', const_limbs(r, o['one']['f']) == R % P and const_limbs(r, o['new']['f']) == 0)
+        if want('Bytes'):
+          ck.ground('C12.Bytes.shape', 'Bytes returns 32 fresh bytes and leaves the element unchanged', o['bytes']['len'] == 32 and o['bytes']['fresh'] and o['E']['f'] == o['E0']['f'])
+        if want('One'):
+          ck.ground('C12.One', 'One() = R mod p; New() = 0', const_limbs(r, o['one']['f']) == R % P and const_limbs(r, o['new']['f']) == 0)
 
     # ---- CMove ----
-    for al in range(3):
+    for al in (range(3) if want('CMove') else []):
         r = R_['cmove%d' % al]
         tag = 'C12.CMove.alias%d' % al
         p = one_path(r, tag)
@@ -171,8 +202,8 @@ def run(tier, seed, ck=None):
         ck.prove_batch(low.all(), goals, timeout=30)
 
     # ---- Reduce, byte conversions ----
-    r = R_['reduce']
-    p = one_path(r, 'C12.Reduce')
+    r = R_.get('reduce')
+    p = one_path(r, 'C12.Reduce') if r else None
     if p:
         o = p['obs']
         low = BVLower(r)
@@ -187,8 +218,8 @@ def run(tier, seed, ck=None):
         ck.prove_batch(low.all(), goals, timeout=60)
 
     # ---- FromBytesWithReduce ----
-    r = R_['frombytes']
-    p = one_path(r, 'C12.FromBytesWithReduce')
+    r = R_.get('frombytes')
+    p = one_path(r, 'C12.FromBytesWithReduce') if r else None
     if p:
         o = p['obs']
         low = BVLower(r)
@@ -201,7 +232,7 @@ def run(tier, seed, ck=None):
                  ('C12.FromBytesWithReduce.value', 'element := ToMontgomery(OS2IP(input) mod p)', '(assert (not %s))' % limbs_eq(o['E']['f'], '(%s (ite (bvult %s %s) %s (bvsub %s %s)))' % (mu.to, iv, pp, iv, iv, pp)))]
         ck.prove_batch(low.all(), goals, timeout=60)
 
-    for n in nrl:
+    for n in (nrl if want('FromBytesNoReduce') else []):
         r = R_['nored%d' % n]
         tag = 'C12.FromBytesNoReduce.%d' % n
         p = one_path(r, tag)
@@ -217,8 +248,8 @@ def run(tier, seed, ck=None):
         ck.ground(tag + '.frame', 'input slice untouched', not p['writes'])
 
     # ---- wide reduction ----
-    r = R_['h2f']
-    p = one_path(r, 'C12.HashToFieldElement')
+    r = R_.get('h2f')
+    p = one_path(r, 'C12.HashToFieldElement') if r else None
     if p:
         o = p['obs']
         low = BVLower(r)
@@ -240,6 +271,8 @@ def run(tier, seed, ck=None):
 
     # ---- chains ----
     for rid, nm, target in (('inv0', 'Invert', P - 2), ('inv1', 'Invert(aliased)', P - 2), ('exp0', 'expPMin3Div4', (P - 3) // 4)):
+        if rid not in R_:
+            continue
         r = R_[rid]
         tag = 'C12.' + nm
         p = one_path(r, tag)
@@ -256,7 +289,7 @@ def run(tier, seed, ck=None):
             ck.prove(tag + '.exponent', 'addition chain (%d steps) computes x^%s' % (steps, 'p-2' if target == P - 2 else '(p-3)/4'), script + '\n(assert (not (= %s %d)))' % (top, target), timeout=60)
 
     # ---- sqrt_ratio vs RFC 9380 F.2.1.2 ----
-    for al in range(3):
+    for al in (range(3) if want('SqrtRatio') else []):
         r = R_['sqrt%d' % al]
         tag = 'C12.SqrtRatio.alias%d' % al
         p = one_path(r, tag)
@@ -296,12 +329,12 @@ def run(tier, seed, ck=None):
         if al == 0:
             ck.ground(tag + '.frame', 'operands unchanged', o['U']['f'] == o['U0']['f'] and o['V']['f'] == o['V0']['f'])
     if any(not o['ok'] and o['id'].startswith(('C12.', 'K.field')) for o in ck.obls) and not ck.violations:
-        battery(ck)
+        battery(ck, wanted)
     return ck.finish() if own else None
 
 
-def battery(ck):
-    path = ck.save_replay({'property': ck.pid, 'pkg': 'field', 'cases': ck.extra.get('_cex', []) + [{'kind': 'field-battery', 'op': str(ck.seed)}]})
+def battery(ck, wanted=None):
+    path = ck.save_replay({'property': ck.pid, 'pkg': 'field', 'cases': ck.extra.get('_cex', []) + [{'kind': 'field-battery', 'op': str(ck.seed), 'b': ','.join(sorted(wanted or ALL_METHODS))}]})
     ok, out = core.go_test(path, pkg='field')
     if not ok and 'MISMATCH' in out:
         ck.violation('field-api', 'field layer wrong on boundary/seeded operands: %s' % [l.strip() for l in out.splitlines() if 'MISMATCH' in l][:1], path)
